@@ -2,7 +2,6 @@ use crate::define::Result;
 use crate::error::Error;
 use crate::value::Value;
 use once_cell::sync::OnceCell;
-use rust_decimal::prelude::FromPrimitive;
 use rust_decimal::Decimal;
 use std::collections::HashMap;
 use std::sync::{Arc, Mutex};
@@ -45,6 +44,45 @@ pub struct PostfixOpManager {
     store: &'static Mutex<HashMap<String, Arc<PostfixOpFunc>>>,
 }
 
+fn calc_decimal(op: &str, a: Decimal, b: Decimal) -> Result<Decimal> {
+    let ans = match op {
+        "+" | "+=" => a.checked_add(b),
+        "-" | "-=" => a.checked_sub(b),
+        "*" | "*=" => a.checked_mul(b),
+        "/" | "/=" | "%" | "%=" => {
+            if b.is_zero() {
+                return Err(Error::DivideByZero);
+            }
+            if op.starts_with('/') {
+                a.checked_div(b)
+            } else {
+                a.checked_rem(b)
+            }
+        }
+        _ => Some(a),
+    };
+    ans.ok_or(Error::NumberOverflow)
+}
+
+fn calc_integer(op: &str, a: i64, b: i64) -> Result<i64> {
+    Ok(match op {
+        "<<" | "<<=" | ">>" | ">>=" => {
+            if b < 0 || b > 63 {
+                return Err(Error::InvalidShiftCount);
+            }
+            if op.starts_with('<') {
+                a << b
+            } else {
+                a >> b
+            }
+        }
+        "&" | "&=" => a & b,
+        "^" | "^=" => a ^ b,
+        "|" | "|=" => a | b,
+        _ => a,
+    })
+}
+
 impl InfixOpManager {
     pub fn new() -> Self {
         static STORE: OnceCell<Mutex<HashMap<String, InfixOpConfig>>> = OnceCell::new();
@@ -64,16 +102,8 @@ impl InfixOpManager {
                 SETTER,
                 RIGHT,
                 Arc::new(move |left, right| {
-                    let (mut a, b) = (left.decimal()?, right.decimal()?);
-                    match op {
-                        "+=" => a += b,
-                        "-=" => a -= b,
-                        "*=" => a *= b,
-                        "/=" => a /= b,
-                        "%=" => a %= b,
-                        _ => (),
-                    }
-                    Ok(Value::Number(a))
+                    let (a, b) = (left.decimal()?, right.decimal()?);
+                    Ok(Value::Number(calc_decimal(op, a, b)?))
                 }),
             );
         }
@@ -85,16 +115,8 @@ impl InfixOpManager {
                 SETTER,
                 RIGHT,
                 Arc::new(move |left, right| {
-                    let (mut a, b) = (left.integer()?, right.integer()?);
-                    match op {
-                        "<<=" => a <<= b,
-                        ">>=" => a >>= b,
-                        "&=" => a &= b,
-                        "^=" => a ^= b,
-                        "|=" => a |= b,
-                        _ => (),
-                    }
-                    Ok(Value::from(a))
+                    let (a, b) = (left.integer()?, right.integer()?);
+                    Ok(Value::from(calc_integer(op, a, b)?))
                 }),
             );
         }
@@ -163,16 +185,8 @@ impl InfixOpManager {
                 CALC,
                 LEFT,
                 Arc::new(move |left, right| {
-                    let (mut a, b) = (left.integer()?, right.integer()?);
-                    match op {
-                        "|" => a |= b,
-                        "^" => a ^= b,
-                        "&" => a &= b,
-                        "<<" => a <<= b,
-                        ">>" => a >>= b,
-                        _ => (),
-                    }
-                    Ok(Value::from(a))
+                    let (a, b) = (left.integer()?, right.integer()?);
+                    Ok(Value::from(calc_integer(op, a, b)?))
                 }),
             );
         }
@@ -184,16 +198,8 @@ impl InfixOpManager {
                 CALC,
                 LEFT,
                 Arc::new(move |left, right| {
-                    let (mut a, b) = (left.decimal()?, right.decimal()?);
-                    match op {
-                        "+" => a += b,
-                        "-" => a -= b,
-                        "*" => a *= b,
-                        "/" => a /= b,
-                        "%" => a %= b,
-                        _ => (),
-                    }
-                    Ok(Value::from(a))
+                    let (a, b) = (left.decimal()?, right.decimal()?);
+                    Ok(Value::from(calc_decimal(op, a, b)?))
                 }),
             );
         }
@@ -411,7 +417,7 @@ impl PostfixOpManager {
             "++",
             Arc::new(|param| {
                 let a = match param {
-                    Value::Number(a) => a + Decimal::from_i32(1).unwrap(),
+                    Value::Number(a) => a.checked_add(Decimal::ONE).ok_or(Error::NumberOverflow)?,
                     _ => return Err(Error::ShouldBeNumber()),
                 };
                 Ok(Value::Number(a))
@@ -422,7 +428,7 @@ impl PostfixOpManager {
             "--",
             Arc::new(|param| {
                 let a = match param {
-                    Value::Number(a) => a - Decimal::from_i32(1).unwrap(),
+                    Value::Number(a) => a.checked_sub(Decimal::ONE).ok_or(Error::NumberOverflow)?,
                     _ => return Err(Error::ShouldBeNumber()),
                 };
                 Ok(Value::Number(a))
